@@ -1,9 +1,21 @@
 (* include: lua_ser.inc.ml lua_legs.inc.ml *)
 (* C01 driver. c01.parse: the front end on arbitrary bytes (spec: the parser returns, i.e. no swallowed panic, crash or hang).
    c01.server: robustness leg over the whole server: no executable model of the whole server exists; the model line is the
-   constant the property demands ("ALIVE"), the implementation line is projected to ALIVE / CRASH.. / TIMEOUT by the check. *)
+   constant the property demands ("ALIVE"), the implementation line is projected to ALIVE / CRASH.. / TIMEOUT by the check.
+   c01.deep: deep-nesting cases `<construct> <depth> <route> <hex text or ->`. The model parser returns for EVERY input
+   (theorem C01_parse_total) with a recursion depth linear in the input (C01_parse_depth_linear); the limit of the Go stack
+   is outside the model (C01_parse_depth_unbounded_refuted: no constant depth suffices), so the model observable is ALIVE.
+   When the check passes the text along (small depths) the extracted parser is really run on it: anything but Ok is
+   printed and breaks the correspondence. *)
 let () = register "c01.parse" (fun line ->
   let bs = bytes_of_hex (List.hd (split_ws line)) in
   parse_model ~nolocs:true bs ^ "\tALIVE\t-")
 let () = register "c01.server" (fun _ -> "ALIVE\tALIVE\t-")
+let () = register "c01.deep" (fun line ->
+  let m = match split_ws line with
+    | [_; _; _; h] when h <> "-" ->
+      let r = parse_model ~nolocs:true (bytes_of_hex h) in
+      if String.length r >= 5 && String.sub r 0 5 = "MODEL" then r else "ALIVE"
+    | _ -> "ALIVE" in
+  m ^ "\tALIVE\t-")
 let () = main ()
